@@ -217,3 +217,42 @@ func fill(b []byte) {
 		b[i] = 0xDB
 	}
 }
+
+// PoolsAside runs f with every (non-quiet) pool empty and no tape attached, then puts the
+// pools back exactly as they were: what f computes does not depend on the pool history of
+// the run, and the run's pool history does not see f. Single-threaded callers only.
+//
+//go:norace
+func PoolsAside(f func()) {
+	type saved struct {
+		items []poolItem
+		n     int
+	}
+	var sv [len(allPools)]saved
+	n0 := nPools
+	for i := 0; i < n0; i++ {
+		p := allPools[i]
+		if p.quiet {
+			continue
+		}
+		sv[i] = saved{p.items, p.n}
+		p.items, p.n = nil, 0
+	}
+	tape, stats := PoolTape, PoolStats
+	PoolTape = nil
+	defer func() {
+		for i := 0; i < nPools; i++ {
+			p := allPools[i]
+			if p.quiet {
+				continue
+			}
+			if i < n0 {
+				p.items, p.n = sv[i].items, sv[i].n
+			} else {
+				p.Drain()
+			}
+		}
+		PoolTape, PoolStats = tape, stats
+	}()
+	f()
+}
